@@ -24,6 +24,13 @@ impl<T: FileStore> RecvTransaction<T> {
         }
     }
 
+    /// limits never change, and a count that has reached its limit stays there (pausing only counts, never clears)
+    pub open spec fn limits_sticky(&self, o: Self) -> bool {
+        &&& self.timer.ack@.max == o.timer.ack@.max && self.timer.inactivity@.max == o.timer.inactivity@.max
+        &&& (o.timer.ack@.count == o.timer.ack@.max ==> self.timer.ack@.count == self.timer.ack@.max)
+        &&& (o.timer.inactivity@.count == o.timer.inactivity@.max ==> self.timer.inactivity@.count == self.timer.inactivity@.max)
+    }
+
     /// the bookkeeping of received data is untouched
     pub open spec fn data_unchanged(&self, o: Self) -> bool {
         &&& self.saved_segments == o.saved_segments
@@ -125,4 +132,33 @@ pub fn vx_write_all(h: &mut File, data: &[u8]) -> (r: TransactionResult<()>)
         r is Ok ==> file_pos(*final(h)) == file_pos(*old(h)) + data@.len(),
 {
     unimplemented!()
+}
+
+impl<T: FileStore> RecvTransaction<T> {
+    pub open spec fn same_except_header(&self, o: Self) -> bool {
+        &&& self.data_unchanged(o)
+        &&& self.state == o.state && self.recv_state == o.recv_state && self.status == o.status
+        &&& self.timer == o.timer && self.condition == o.condition
+        &&& self.delivery_code == o.delivery_code && self.file_status == o.file_status
+        &&& self.ack == o.ack && self.prompt == o.prompt && self.naks == o.naks && self.finished == o.finished
+    }
+}
+
+impl<T: FileStore> RecvTransaction<T> {
+    /// stands for the delayed-NAK prologue of handle_timeout (see recv.vspec): may change only the delayed-NAK timers and the NAK queue
+    #[verifier::external_body]
+    pub fn vx_collect_delayed_naks(&mut self)
+        ensures
+            final(self).same_except_naks(*old(self)),
+    {
+        unimplemented!()
+    }
+
+    pub open spec fn same_except_naks(&self, o: Self) -> bool {
+        &&& self.data_unchanged(o)
+        &&& self.state == o.state && self.recv_state == o.recv_state && self.status == o.status
+        &&& self.timer == o.timer && self.condition == o.condition
+        &&& self.delivery_code == o.delivery_code && self.file_status == o.file_status
+        &&& self.ack == o.ack && self.prompt == o.prompt && self.finished == o.finished
+    }
 }
